@@ -11,6 +11,7 @@ STATS = G.STATS
 PARTIAL = [
     "point = Cox-de Boor (tensor) sum is assembled through the span search for every parameter of the closed domain (cdb on the half-open domain; at the right end the recursion of the last span, cdbSpan, = left-limit convention), rational quotient included; the statement is about findSpanLinear - evaluation with find_span_binsearch selected is covered through C03/C17 span_search_choice under its tolerance hypothesis",
     "entry points: list = map of single, grid size / ordering / corners (curve, surface, volume) and the zeroth derivative of curves are Lean theorems about the model functions (curveGrid, surfaceGrid, volumeGrid, curveDers); the zeroth derivative of surfaces follows coordinatewise from C02 (k = l = 0); the object layer's dispatch to these functions is tied by correspondence + exact oracle only",
+    "evaluation with find_span_binsearch SELECTED is now an end-to-end theorem (C17 curve_eval_binsearch_selected, rational_curve_eval_binsearch_selected, surface_eval_binsearch_selected, volume_eval_binsearch_selected, curve_derivatives_binsearch_selected; binsearch_span_found): on the closed domain of a knot vector with non-empty last span the point computed on the span the binary search returns is the Cox-de Boor (tensor) sum (cdbSpan of that span; cdb below the domain end), under BinTolOk = tolerance in (0, 1/2) and the F-17b separation hypothesis per direction (holds for every parameter when the last span is longer than the tolerance); without it the evaluated point differs (curve_eval_binsearch_refuted_F17b) - supersedes the last clause of the first item; rational surfaces / volumes with the binary search: only through binsearch_selected_any_span_function (span equality), no separate quotient statement",
 ]
 PARTIAL.append("knot vectors with an empty last domain span are outside the model (theorems assume KnotsOk); the repaired step-back of the span searches (F-01b) is checked by the exact oracle only (stream empty-last-span: model line + oracle strictly inside the domain, kind end-left-limit without a model line at u = U_n - points, first derivatives, evaluate_list, sampled grid against the Cox-de Boor left limit; span_found_nonempty_of_knotsOk / span_found_empty_without_knotsOk in Props/C01.lean; the evaluation / derivative / grid ops of the driver answer ERR when the span the model finds is empty instead of printing x/0 = 0)")
 ASSUMPTIONS = ["parameters at the domain end are evaluated on the last non-empty span (left limit), as the library does"]
